@@ -445,7 +445,7 @@ func (c16) Run(e *Env) {
 			if faults {
 				switch e.Weighted("http-outcome", []int{5, 1, 2, 1, 2}) {
 				case 1:
-					out.Status = []int{400, 403, 413}[e.Draw(3)]
+					out.Status = []int{400, 403, 413, 300, 304, 305}[e.Draw(6)] // incl. 3xx answers a client does not follow (an intermediary): not delivered either
 					fault("http-4xx")
 				case 2:
 					out.Status = []int{500, 502, 503}[e.Draw(3)]
